@@ -416,6 +416,7 @@ class World:
                                 f"it answered {prev[2]!r}")
             self.stats.inc("probe:inverse_pair_checked")
         regime = self._regime(names)
+        post_bits = {n: model.bits(self.slots[n].live) for n in dict.fromkeys(names)}
         # re-ask
         if step.get("repeat"):
             allowed = (not binary) or regime["binary_t2"]
@@ -448,7 +449,7 @@ class World:
                 same = ans1[1] == ans[1]
                 if same and op not in ("plot",):
                     for n in dict.fromkeys(names):
-                        if model.bits(twins1[n]) != model.bits(self.slots[n].live):
+                        if model.bits(twins1[n]) != post_bits[n]:
                             same = False
                             ans1 = ("state", None, "operand representation after the call differs")
                 if not same:
